@@ -388,9 +388,10 @@ fn spec_scan_more_info<const RP: usize, const EZ: usize>(w: u128) -> Option<(usi
 // Models for the hash containers (HashSet<u32> / HashMap<u32, u32> with the default RandomState): the real
 // RandomState::new() asks the operating system for random keys (a foreign call Kani cannot execute) and SipHash over
 // symbolic keys makes every bucket position symbolic (CBMC ran out of memory at 14 GB on two insertions). The observable
-// behaviour of HashSet / HashMap (len, contains, get) does not depend on the hash VALUES -- any deterministic hasher gives
-// the same set / map -- so the obligations below run the real hashbrown table with fixed keys and a constant hash
+// behaviour of HashSet / HashMap (len, contains, get) does not depend on the hash VALUES -- any deterministic hasher
+// gives the same set / map -- so the obligations run the REAL hashbrown table with fixed keys and a constant hash
 // (every key lands in the same probe sequence and is told apart by `==`, which is what decides membership).
+// (Recording models of `Extend::extend` are not possible: Kani 0.68 cannot stub generic functions of traits.)
 fn random_state_model() -> std::hash::RandomState {
     // RandomState is two u64 keys
     unsafe { std::mem::transmute::<[u64; 2], std::hash::RandomState>([0, 0]) }
@@ -436,7 +437,7 @@ fn check_scan_more_info<const RP: usize, const EZ: usize>() {
 }
 
 #[kani::proof]
-#[kani::unwind(18)]
+#[kani::unwind(9)]
 #[kani::stub(std::hash::RandomState::new, random_state_model)]
 #[kani::stub(<std::hash::DefaultHasher as std::hash::Hasher>::write, hasher_write_model)]
 #[kani::stub(<std::hash::DefaultHasher as std::hash::Hasher>::finish, hasher_finish_model)]
@@ -445,7 +446,7 @@ fn scan_more_info_parse_rp2_ez1() {
 }
 
 #[kani::proof]
-#[kani::unwind(18)]
+#[kani::unwind(9)]
 #[kani::stub(std::hash::RandomState::new, random_state_model)]
 #[kani::stub(<std::hash::DefaultHasher as std::hash::Hasher>::write, hasher_write_model)]
 #[kani::stub(<std::hash::DefaultHasher as std::hash::Hasher>::finish, hasher_finish_model)]
